@@ -80,8 +80,9 @@ pub fn designspace(f: &SynthFont) -> String {
     for a in &f.axes {
         let _ = write!(s, "    <axis tag=\"{}\" name=\"{}\" minimum=\"{}\" maximum=\"{}\" default=\"{}\"", a.tag, esc(&a.name), num(a.u_min()), num(a.u_max()), num(a.u_default()));
         if a.hidden { s.push_str(" hidden=\"1\""); }
-        if a.map.is_none() && a.label.is_none() { s.push_str("/>\n"); continue; }
+        if a.map.is_none() && a.label.is_none() && a.other_labels.is_empty() { s.push_str("/>\n"); continue; }
         s.push_str(">\n");
+        for (lang, l) in &a.other_labels { let _ = writeln!(s, "      <labelname xml:lang=\"{lang}\">{}</labelname>", esc(l)); }
         if let Some(l) = &a.label { let _ = writeln!(s, "      <labelname xml:lang=\"en\">{}</labelname>", esc(l)); }
         if let Some(m) = &a.map { for (u, d) in m { let _ = writeln!(s, "      <map input=\"{}\" output=\"{}\"/>", num(*u), num(*d)); } }
         s.push_str("    </axis>\n");
